@@ -48,6 +48,9 @@ def main_src(rng, nmods):
     lines += probes
     lines.append("b := import(\"vmod\")\nout = append(out, [\"builtin\", b.k, b.ns.n, len(b.empty), len(b.boxes.m), len(b.boxes.a[0]), len(b.ns.depth), len(b.boxes.sm.inner)])\n"
                  "b.k = 99\nb.ns.n = 98\nb.empty.w = 1\nb.boxes.m.w = 2\nb.boxes.a[0].w = 3\nb.ns.depth.z = 4\nb.boxes.sm.inner.w = 5")
+    # Go modules whose value is bytes, an array, a sync map (a host Importable): read, then changed in place
+    lines.append("cb := import(\"cbytes\")\nca := import(\"carr\")\ncs := import(\"csm\")\nout = append(out, [\"builtin2\", cb[0], ca[0], ca[1][0], cs.k, len(cs.inner), import(\"carr\")[0]])\n"
+                 "cb[0] = 9\nca[0] = 8\nca[1][0] = 7\ncs.k = 6\ncs.inner.z = 5\nout = append(out, [\"builtin3\", import(\"cbytes\")[0], import(\"carr\")[0], import(\"csm\").k])")
     lines.append("return [out, log]")
     return "\n".join(lines) + "\n"
 
